@@ -60,7 +60,7 @@ func Prop(t *testing.T, id string, f func(rt *rapid.T)) {
 
 // drawSlicer draws a read/write slicing policy.
 func drawSlicer(rt *rapid.T, label string) *Slicer {
-	mode := rapid.IntRange(0, 4).Draw(rt, label+".mode")
+	mode := rapid.IntRange(0, 5).Draw(rt, label+".mode")
 	if mode == 0 {
 		return nil
 	}
